@@ -70,9 +70,72 @@ fn verdict(vd: &mut Verdicts, w: &World, pass: bool, kind: &str, detail: &str) {
     }
 }
 
-/// ask the model; if it has no disk yet (fs.rs did not call `after_format`), let it format its own blank image first
+/// Which variant of the source is the real code?  The model carries four pieces of a2kit's ProDOS module as written and
+/// as repaired (`Repairs` in Model/Fs/Prodos.lean); the real code is probed once per process and the driver is told
+/// (`fspd variant`), so that the byte-exact tie holds before and after each repair is applied:
+/// dd = delete of a grown directory follows the chain, pl = put refuses more than 128 index blocks,
+/// bc = ceil(total/4096) bitmap blocks (a 4096-block volume has 4089 free blocks after format, not 4088),
+/// fh = a file image without chunk 0 gets a hole in slot 0 of its index block (get returns no chunk 0)
+fn variant_bits() -> [bool; 4] {
+    use a2kit::fs::{prodos, DiskFS};
+    use a2kit::img;
+    static BITS: std::sync::OnceLock<[bool; 4]> = std::sync::OnceLock::new();
+    *BITS.get_or_init(|| {
+        // `A2V_PD_VARIANT=1100` (dd pl bc fh) overrides the probe: for checking that a wrong variant is noticed
+        if let Ok(v) = std::env::var("A2V_PD_VARIANT") {
+            let b: Vec<bool> = v.chars().map(|c| c == '1').collect();
+            if b.len() == 4 { return [b[0], b[1], b[2], b[3]]; }
+        }
+        let mk = |n: u16| -> Result<prodos::Disk, String> {
+            let img = Box::new(img::dsk_po::PO::create(n));
+            let mut d = prodos::Disk::from_img(img).map_err(|e| e.to_string())?;
+            d.format("VERIF", true, None).map_err(|e| e.to_string())?;
+            Ok(d)
+        };
+        let file = |d: &mut prodos::Disk, path: &str, chunks: Vec<(usize, Vec<u8>)>, eof: usize| -> Result<usize, String> {
+            let mut f = d.new_fimg(None, true, path).map_err(|e| e.to_string())?;
+            for (i, c) in chunks { f.chunks.insert(i, c); }
+            f.set_eof(eof); f.access = vec![0xC3]; f.fs_type = vec![6];
+            d.put(&f).map_err(|e| e.to_string())
+        };
+        let dd = guarded(|| -> Result<bool, String> {
+            let mut d = mk(280)?;
+            d.create("D").map_err(|e| e.to_string())?;
+            for i in 0..13 { file(&mut d, &format!("D/F{}", i), vec![(0, vec![i as u8 + 1; 10])], 10)?; }
+            for i in 0..13 { d.delete(&format!("D/F{}", i)).map_err(|e| e.to_string())?; }
+            let r = d.delete("D");
+            let rows = d.catalog_to_vec("/").map_err(|e| e.to_string())?;
+            Ok(r.is_ok() && !rows.iter().any(|r| r.ends_with("  D")))
+        });
+        let pl = guarded(|| -> Result<bool, String> {
+            let mut d = mk(280)?;
+            Ok(file(&mut d, "BIG", vec![(0, vec![1; 512]), (32768, vec![2; 512])], 512).is_err())
+        });
+        let bc = guarded(|| -> Result<bool, String> {
+            let mut d = mk(4096)?;
+            Ok(d.stat().map_err(|e| e.to_string())?.free_blocks == 4089)
+        });
+        let fh = guarded(|| -> Result<bool, String> {
+            let mut d = mk(280)?;
+            file(&mut d, "H", vec![(1, vec![0x41; 512])], 1024)?;
+            let g = d.get("H").map_err(|e| e.to_string())?;
+            Ok(!g.chunks.contains_key(&0))
+        });
+        let b = |r: Result<Result<bool, String>, String>| matches!(r, Ok(Ok(true)));
+        [b(dd), b(pl), b(bc), b(fh)]
+    })
+}
+
+/// ask the model; tell it the variant of the real source first if it does not know it yet; if it has no disk yet
+/// (fs.rs did not call `after_format`), let it format its own blank image first
 fn ask(drv: &mut Drv, req: &str) -> String {
-    let ans = drv.ask(&format!("fspd {}", req));
+    let mut ans = drv.ask(&format!("fspd {}", req));
+    if ans == "need-variant" {
+        let v = variant_bits();
+        let a = drv.ask(&format!("fspd variant {} {} {} {}", v[0] as u8, v[1] as u8, v[2] as u8, v[3] as u8));
+        if a != "ok" { return format!("variant-failed:{}", a); }
+        ans = drv.ask(&format!("fspd {}", req));
+    }
     if ans != "need-format" { return ans; }
     let a = drv.ask(&format!("fspd format {} {} nocmp ok", hxs("VERIF"), hx(&pd_time())));
     if a != "ok" { return format!("format-failed:{}", a); }
@@ -118,7 +181,7 @@ fn op_request(op: &OpRecord) -> Option<String> {
 /// optional hook for fs.rs: right after `make_volume` and the first mirror of the image
 pub fn after_format(drv: &mut Drv, w: &mut World, vd: &mut Verdicts) {
     if !enabled(w, vd) { return; }
-    let ans = drv.ask(&format!("fspd format {} {} cmp ok", hxs("VERIF"), hx(&pd_time())));
+    let ans = ask(drv, &format!("format {} {} cmp ok", hxs("VERIF"), hx(&pd_time())));
     if ans == "ok" { verdict(vd, w, true, "", ""); }
     else {
         let kind = if ans.starts_with("bad result") { "result" } else { "image" };
@@ -192,11 +255,11 @@ pub fn after_step(drv: &mut Drv, w: &mut World, vd: &mut Verdicts, desc: &str) {
 // ------------------------------------------------------------------------------------------
 // directed scenarios on the real code (operations the generator of fs.rs does not produce): once per run
 
-/// the two scenarios fail on the tree as it is (findings `prodos-delete-grown-directory`, `prodos-oversize-put-refused`,
-/// repairs in proposed_fixes/prodos-delete-grown-directory.diff, prodos-put-size-limits.diff).  Until the repairs are
-/// applied a failure is only counted (`pending-fix:<oracle>` in the distribution); set this to `true` (or run with
-/// `A2V_PD_DIRECTED=1`) once they are, so that a regression is reported as a failing input.
-const DIRECTED_STRICT: bool = false;
+/// The four scenarios failed on the tree at 1ff0ca3 / aadfbdc (findings `prodos-delete-grown-directory`,
+/// `prodos-oversize-put-refused`, `prodos-bitmap-block-count`, `prodos-put-first-chunk-hole`); all four repairs are applied
+/// in /repo (ff7dba9, 7c065bc, 2120bff, 67f0f58), so a failure is a regression and is reported as a failing input.
+/// `A2V_PD_DIRECTED=0` turns failures into counts (`pending-fix:<oracle>`), for runs against an older tree.
+const DIRECTED_STRICT: bool = true;
 
 fn report(vd: &mut Verdicts, w: &World, owners: &[Focus], pass: bool, oracle: &str, detail: &str) {
     let strict = std::env::var("A2V_PD_DIRECTED").map(|v| v != "0").unwrap_or(DIRECTED_STRICT);
@@ -266,5 +329,116 @@ fn directed(w: &World, vd: &mut Verdicts) {
         Ok(Ok(Some(why))) => report(vd, w, &[Focus::C01, Focus::C03], false, "prodos-oversize-put-refused", &why),
         Ok(Err(e)) => vd.out.count(&format!("directed-setup-error:{}", e)),
         Err(p) => report(vd, w, &[Focus::C01, Focus::C03], false, "prodos-oversize-put-refused", &format!("panic {}", p)),
+    }
+    // C: volumes of 4096 x k blocks.  ProDOS gives them k bitmap blocks; a2kit as written counts k + 1: its own format
+    // loses one block, and on a volume laid out the ProDOS way the block after the bitmap (an ordinary block) is taken
+    // for a bitmap block: storing into it panics.  (finding `prodos-bitmap-block-count`, proposed_fixes/prodos-bitmap-block-count.diff)
+    let c = guarded(|| -> Result<Option<String>, String> {
+        use a2kit::img::DiskImage;
+        let img = Box::new(img::dsk_po::PO::create(4096));
+        let mut d = prodos::Disk::from_img(img).map_err(|e| e.to_string())?;
+        d.format("VERIF", false, None).map_err(|e| e.to_string())?;
+        let free = d.stat().map_err(|e| e.to_string())?.free_blocks;
+        if free != 4096 - 7 { return Ok(Some(format!("format of a 4096-block volume reports {} free blocks: boot 2 + directory 4 + bitmap 1 are in use, {} are neither free nor reachable", free, 4096 - 7 - free as usize))); }
+        // the ProDOS layout of an 8192-block volume: bitmap blocks 6 and 7, block 8 is free
+        let img = Box::new(img::dsk_po::PO::create(8192));
+        let mut d = prodos::Disk::from_img(img).map_err(|e| e.to_string())?;
+        d.format("VERIF", false, None).map_err(|e| e.to_string())?;
+        let mut bytes = d.get_img().to_bytes();
+        bytes[6 * 512 + 1] |= 0x80;
+        let img2 = Box::new(img::dsk_po::PO::from_bytes(&bytes).map_err(|e| e.to_string())?);
+        let mut d2 = prodos::Disk::from_img(img2).map_err(|e| e.to_string())?;
+        match guarded(|| file(&mut d2, "A", vec![(0, vec![7; 100])], 100)) {
+            Ok(Ok(_)) => Ok(None),
+            Ok(Err(e)) => Ok(Some(format!("put of a 100-byte file on an 8192-block volume laid out the ProDOS way (bitmap in blocks 6 and 7, block 8 free) refused: {}", e))),
+            Err(p) => Ok(Some(format!("put of a 100-byte file on an 8192-block volume laid out the ProDOS way (bitmap in blocks 6 and 7, block 8 free) panics: {}", p))),
+        }
+    });
+    match c {
+        Ok(Ok(None)) => report(vd, w, &[Focus::C03, Focus::C04], true, "prodos-bitmap-block-count", ""),
+        Ok(Ok(Some(why))) => report(vd, w, &[Focus::C03, Focus::C04], false, "prodos-bitmap-block-count", &why),
+        Ok(Err(e)) => vd.out.count(&format!("directed-setup-error:{}", e)),
+        Err(p) => report(vd, w, &[Focus::C03, Focus::C04], false, "prodos-bitmap-block-count", &format!("panic {}", p)),
+    }
+    // D: a sparse file image without chunk 0 (finding `prodos-put-first-chunk-hole`, proposed_fixes/prodos-put-first-chunk-hole.diff)
+    let dsc = guarded(|| -> Result<Option<String>, String> {
+        let mut d = mk()?;
+        file(&mut d, "KEEP", vec![(0, vec![0xAA; 512])], 512)?;
+        let data = vec![0x41u8; 512];
+        match file(&mut d, "H", vec![(1, data.clone())], 1024) {
+            Err(_) => Ok(None), // refusing would be sound too
+            Ok(_) => {
+                let g = d.get("H").map_err(|e| e.to_string())?;
+                let mut keys: Vec<usize> = g.chunks.keys().cloned().collect();
+                keys.sort();
+                if keys != vec![1] || g.chunks.get(&1) != Some(&data) {
+                    return Ok(Some(format!("put H chunks={{1}} eof=1024 accepted; get H returns chunks {:?} (chunk 0 is the index block itself: the index block's slot 0 points to the index block)", keys)));
+                }
+                Ok(None)
+            }
+        }
+    });
+    match dsc {
+        Ok(Ok(None)) => report(vd, w, &[Focus::C01, Focus::C03], true, "prodos-put-first-chunk-hole", ""),
+        Ok(Ok(Some(why))) => report(vd, w, &[Focus::C01, Focus::C03], false, "prodos-put-first-chunk-hole", &why),
+        Ok(Err(e)) => vd.out.count(&format!("directed-setup-error:{}", e)),
+        Err(p) => report(vd, w, &[Focus::C01, Focus::C03], false, "prodos-put-first-chunk-hole", &format!("panic {}", p)),
+    }
+    variant_tie(w, vd);
+}
+
+/// The byte-exact tie at the two inputs where the variants `bitmapCeil` / `firstHole` of the model differ (the generator of
+/// fs.rs produces neither a volume of 4096 x k blocks nor a file image without chunk 0): format of a 4096-block volume,
+/// and put of the chunks {1} on a 280-block volume, each compared unit for unit with a private driver that was told
+/// the probed variant.  Exact before and after the repairs are applied.
+fn variant_tie(w: &World, vd: &mut Verdicts) {
+    use a2kit::fs::{prodos, DiskFS};
+    use a2kit::img;
+    let mut drv = match Drv::spawn() { Some(d) => d, None => { vd.out.count("variant-tie:no-driver"); return; } };
+    let v = variant_bits();
+    let mirror = |drv: &mut Drv, bytes: &[u8], open: bool| -> Result<(), String> {
+        let n = bytes.len() / 512;
+        if open { let a = drv.ask(&format!("fs open prodos 512 {}", n)); if a != "ok" { return Err(format!("open: {}", a)); } }
+        let mut req = String::from("fs set");
+        for i in 0..n {
+            req.push_str(&format!(" {}:{}", i, hx(&bytes[i * 512..(i + 1) * 512])));
+            if req.len() > 200_000 { let a = drv.ask(&req); if a != "ok" { return Err(format!("set: {}", a)); } req = String::from("fs set"); }
+        }
+        if req.len() > 6 { let a = drv.ask(&req); if a != "ok" { return Err(format!("set: {}", a)); } }
+        Ok(())
+    };
+    let r = guarded(|| -> Result<Option<String>, String> {
+        // 1: format of a 4096-block volume
+        let img = Box::new(img::dsk_po::PO::create(4096));
+        let mut d = prodos::Disk::from_img(img).map_err(|e| e.to_string())?;
+        let time = pd_time();
+        d.format("VERIF", true, None).map_err(|e| e.to_string())?;
+        mirror(&mut drv, &d.get_img().to_bytes(), true)?;
+        let a = ask(&mut drv, &format!("format {} {} cmp ok", hxs("VERIF"), hx(&time)));
+        if a != "ok" { return Ok(Some(format!("format of a 4096-block volume (variant {:?}): model answered [{}]", v, a))); }
+        // 2: put of a file image without chunk 0
+        let img = Box::new(img::dsk_po::PO::create(280));
+        let mut d = prodos::Disk::from_img(img).map_err(|e| e.to_string())?;
+        let time = pd_time();
+        d.format("VERIF", true, None).map_err(|e| e.to_string())?;
+        mirror(&mut drv, &d.get_img().to_bytes(), true)?;
+        let a = ask(&mut drv, &format!("format {} {} cmp ok", hxs("VERIF"), hx(&time)));
+        if a != "ok" { return Ok(Some(format!("format of a 280-block volume: model answered [{}]", a))); }
+        let data = vec![0x41u8; 512];
+        let mut f = d.new_fimg(None, true, "H").map_err(|e| e.to_string())?;
+        f.chunks.insert(1, data.clone());
+        f.set_eof(1024); f.access = vec![0xC3]; f.fs_type = vec![6];
+        let time = pd_time();
+        let res = d.put(&f).map(|_| ()).map_err(|e| e.to_string());
+        mirror(&mut drv, &d.get_img().to_bytes(), false)?;
+        let a = ask(&mut drv, &format!("put {} {} {} {} {} {} {} 1:{}", hxs("H"), hx(&f.fs_type), hx(&f.aux), hx(&f.access), 1024, hx(&time), res_tok(&res), hx(&data)));
+        if a != "ok" { return Ok(Some(format!("put H chunks={{1}} (variant {:?}, real {}): model answered [{}]", v, res_tok(&res), a))); }
+        Ok(None)
+    });
+    match r {
+        Ok(Ok(None)) => verdict(vd, w, true, "", ""),
+        Ok(Ok(Some(why))) => verdict(vd, w, false, "variant", &format!("concrete ProDOS model disagrees at a variant point: {}", why)),
+        Ok(Err(e)) => vd.out.count(&format!("variant-tie-setup-error:{}", e.chars().take(60).collect::<String>().replace(' ', "_"))),
+        Err(p) => vd.out.count(&format!("variant-tie-panic:{}", p.chars().take(60).collect::<String>().replace(' ', "_"))),
     }
 }
